@@ -1,3 +1,184 @@
-(* placeholder until the theorems are stated *)
-From Coq Require Import List.
-Theorem C07_placeholder : True. Proof. exact I. Qed.
+(* C07 - high-level API operations mean what they say to a conforming BMC.
+   Statements only; every proof is [exact <lemma>].
+   [call name args s] = the operation generated from /repo (Gen/ApiContent.v, regenerated on every
+   run) interpreted by Model/ApiSem.v over the generated layouts, run against the reference BMC
+   (Model/Bmc.v, by byte position) in state s: (outcome, BMC state afterwards).
+   [same r v] = the outcome equals v in the sense of Python's ==.
+   Each write theorem gives the BMC state afterwards explicitly as [put]s on the state before:
+   together with [C07_frame] that is the frame clause (every other object unchanged). *)
+From Coq Require Import String Ascii.
+From Coq Require Import NArith ZArith List Bool.
+From PyIpmi Require Import Lib.Res Lib.Bytes Lib.Prog Model.ApiSem Model.Bmc Gen.ApiContent Model.ApiRun
+  Proofs.ApiRunProofs Proofs.C07Pure Proofs.C07Lan Proofs.C07Chassis Proofs.C07Picmg Proofs.C07Sensor Proofs.C07App.
+Import ListNotations.
+Open Scope string_scope.
+Open Scope list_scope.
+Open Scope N_scope.
+
+(* ---- frame ---- *)
+Theorem C07_frame : forall s k v k', k' <> k -> get (put s k v) k' = get s k'.
+Proof. exact get_put_other. Qed.
+Print Assumptions C07_frame.
+
+(* ---- purity ---- *)
+(* the translator refused no result class for mutating class-level state in place, and no constructor of
+   Ipmi has a mutable default argument (fails on the unrepaired tree: F7b ChassisStatus, F7c Session()) *)
+Theorem C07_no_shared_mutable : forallb pure_op api_content = true /\ shared_defaults = [].
+Proof. exact (conj all_pure no_shared_defaults). Qed.
+Print Assumptions C07_no_shared_mutable.
+
+Theorem C07_covered_translated : forallb is_supported covered = true.
+Proof. exact covered_supported. Qed.
+Print Assumptions C07_covered_translated.
+
+(* a read command leaves the reference BMC unchanged, for every state and request *)
+Theorem C07_bmc_read_pure : forall s r, is_read_cmd r = true -> fst (bmc_handle s r) = s.
+Proof. exact bmc_read_pure. Qed.
+Print Assumptions C07_bmc_read_pure.
+
+(* an operation that is one exchange with a read command: the BMC state is unchanged and the result is a
+   function of the arguments and of the BMC's answer (hence of the BMC state) only *)
+Theorem C07_read_pure : forall name args s rp r out,
+  one_exchange name args rp = Some (r, out) -> is_read_cmd r = true ->
+  snd (bmc_handle s r) = rp -> call name args s = (out, s).
+Proof. exact read_pure. Qed.
+Print Assumptions C07_read_pure.
+
+Theorem C07_reads_send_read_commands : forallb chk_read_sample read_samples = true.
+Proof. exact reads_send_reads. Qed.
+Print Assumptions C07_reads_send_read_commands.
+
+(* ---- write then read ---- *)
+(* VLAN id: every id 0..4095 on channels 0, 1, 15 and boundary ids on every channel (full product: see design.d) *)
+Theorem C07_write_read_vlan_partial : forall s v ch, vlan_dom v ch ->
+  exists r1 r2, let s1 := put s (K_LAN, ch, 20) (vlan_bytes v) in
+    call "set_vlan_id" [arg "vlan" v; arg "channel" ch] s = (r1, s1) /\ same r1 (Ok PNone) /\
+    call "get_vlan_id" [arg "channel" ch] s1 = (r2, s1) /\ same r2 (Ok (PInt (Z.of_N v))).
+Proof. exact write_read_vlan. Qed.
+Print Assumptions C07_write_read_vlan_partial.
+
+Theorem C07_write_read_ip_source : forall s k ch, List.In k [1; 2] -> ch < 16 ->
+  exists r1 r2, let s1 := put s (K_LAN, ch, 4) [k] in
+    call "set_ip_source" [("ip_source", PStr (src_name k)); arg "channel" ch] s = (r1, s1) /\ same r1 (Ok PNone) /\
+    call "get_ip_source" [arg "channel" ch] s1 = (r2, s1) /\ same r2 (Ok (PStr (src_name k))).
+Proof. exact write_read_ip_source. Qed.
+Print Assumptions C07_write_read_ip_source.
+
+(* IP address: octets from {0,1,9,10,99,100,255}, channels 0 and 1 *)
+Theorem C07_write_read_ip_address_partial : forall s a b c d ch,
+  List.In a octets -> List.In b octets -> List.In c octets -> List.In d octets -> List.In ch [0; 1] ->
+  exists r1 r2, let s1 := put s (K_LAN, ch, 3) [a; b; c; d] in
+    call "set_ip_address" [("ip_address", PStr (ip_text a b c d)); arg "channel" ch] s = (r1, s1) /\ same r1 (Ok PNone) /\
+    call "get_ip_address" [arg "channel" ch] s1 = (r2, s1) /\ same r2 (Ok (PStr (ip_text a b c d))).
+Proof. exact write_read_ip_address. Qed.
+Print Assumptions C07_write_read_ip_address_partial.
+
+(* boot options: all 12 devices x legacy/efi x persistency, every BMC state *)
+Theorem C07_write_read_boot_options : forall s d efi pers, List.In d boot_devices ->
+  let s1 := boot_state s d efi pers in
+  exists r1 r2 r3 r4,
+    call "set_boot_options" (boot_args d efi pers) s = (r1, s1) /\ same r1 (Ok PNone) /\
+    call "get_boot_device" [] s1 = (r2, s1) /\ same r2 (Ok (PStr (fst d))) /\
+    call "get_boot_mode" [] s1 = (r3, s1) /\ same r3 (Ok (PStr (mode_name efi))) /\
+    call "get_boot_persistency" [] s1 = (r4, s1) /\ same r4 (Ok (PBool pers)).
+Proof. exact write_read_boot. Qed.
+Print Assumptions C07_write_read_boot_options.
+
+(* chassis control: whenever the reference BMC accepts Chassis Control(o), the call leaves it in exactly
+   that transition's state (o < 16; the six named wrappers send o = 0..5) *)
+Theorem C07_write_chassis_control : forall s o s', o < 16 ->
+  bmc_handle s (mkReq 0 2 0 [o]) = (s', RBytes [0]) ->
+  exists r, call "chassis_control" [arg "option" o] s = (r, s') /\ same r (Ok PNone).
+Proof. exact write_chassis_control. Qed.
+Print Assumptions C07_write_chassis_control.
+
+Theorem C07_write_chassis_control_wrappers : forall s w s', List.In w wrappers ->
+  bmc_handle s (mkReq 0 2 0 [snd w]) = (s', RBytes [0]) ->
+  exists r, call (fst w) [] s = (r, s') /\ same r (Ok PNone).
+Proof. exact write_chassis_wrapper. Qed.
+Print Assumptions C07_write_chassis_control_wrappers.
+
+(* fan level: FRU ids {0,1,2,3,254,255}; every level with boundary local levels and vice versa *)
+Theorem C07_write_read_fan_level_partial : forall s fru level loc,
+  List.In fru frus -> List.In (level, loc) fan_dom -> at_ (get s (K_FAN, fru, 0)) 1 = loc ->
+  let s1 := put s (K_FAN, fru, 0) [level; loc] in
+  exists r1 r2,
+    call "set_fan_level" [arg "fru_id" fru; arg "fan_level" level] s = (r1, s1) /\ same r1 (Ok PNone) /\
+    call "get_fan_level" [arg "fru_id" fru] s1 = (r2, s1) /\
+    same r2 (Ok (PList [PInt (Z.of_N level); PInt (Z.of_N loc)])).
+Proof. exact write_read_fan. Qed.
+Print Assumptions C07_write_read_fan_level_partial.
+
+(* FRU activation policy (write only in the API): every FRU id, all four controls, every state *)
+Theorem C07_write_activation_policy : forall s fru ctrl, fru < 256 -> ctrl < 4 ->
+  let '(m, v) := policy_bytes ctrl in
+  exists r, call "set_fru_activation_policy" [arg "fru_id" fru; arg "ctrl" ctrl] s =
+              (r, put s (K_POLICY, fru, 0) [merge_bits 2 (at_ (get s (K_POLICY, fru, 0)) 0) m v]) /\
+            same r (Ok PNone).
+Proof. exact write_policy. Qed.
+Print Assumptions C07_write_activation_policy.
+
+(* FRU LED override state (on / off / blinking with every off duration 1..249 and every on duration) on a LED
+   under local control; durations are reported in ms = 10 x the value written *)
+Theorem C07_write_read_led_partial : forall s fru led color c,
+  List.In (fru, led, color) led_targets -> List.In c led_cases ->
+  get s (K_LED, fru, led) = [1; 0; 0; 1; 0; 0; 0; 0] ->
+  let s1 := put s (K_LED, fru, led) [3; 0; 0; 1; fst (led_wire c); snd (led_wire c); color; 0] in
+  exists r1 r2,
+    call "set_led_state" [("led", led_obj fru led color (led_fn c) (fst (led_durs c)) (snd (led_durs c)))] s = (r1, s1) /\
+    same r1 (Ok PNone) /\
+    call "get_led_state" [arg "fru_id" fru; arg "led_id" led] s1 = (r2, s1) /\
+    same r2 (Ok (led_result color (led_fn c) (fst (led_durs c)) (snd (led_durs c)))).
+Proof. exact write_read_led. Qed.
+Print Assumptions C07_write_read_led_partial.
+
+(* event receiver: every 7-bit slave address and LUN, every state *)
+Theorem C07_write_read_event_receiver : forall s a lun, a < 128 -> lun < 4 ->
+  let s1 := put s (K_EVRCV, 0, 0) [2 * a; lun] in
+  exists r1 r2,
+    call "set_event_receiver" [arg "ipmb_address" a; arg "lun" lun] s = (r1, s1) /\ same r1 (Ok PNone) /\
+    call "get_event_receiver" [] s1 = (r2, s1) /\ same r2 (Ok (PList [PInt (Z.of_N a); PInt (Z.of_N lun)])).
+Proof. exact write_read_event_receiver. Qed.
+Print Assumptions C07_write_read_event_receiver.
+
+(* thresholds: every subset of the six, and each threshold alone over 0..255, on four (sensor, LUN) pairs *)
+Theorem C07_write_read_thresholds_partial : forall s num lun m vals,
+  List.In (num, lun) thr_sensors -> List.In (m, vals) thr_cases ->
+  get s (K_THR, lun, num) = [0; 0; 0; 0; 0; 0] -> get s (K_THRMASK, lun, num) = [63] ->
+  let t := thr_new m vals [0; 0; 0; 0; 0; 0] in
+  let s1 := put s (K_THR, lun, num) t in
+  exists r1 r2,
+    call "set_sensor_thresholds" (thr_args num lun m vals) s = (r1, s1) /\ same r1 (Ok PNone) /\
+    call "get_sensor_thresholds" [arg "sensor_number" num; arg "lun" lun] s1 = (r2, s1) /\
+    same r2 (Ok (thr_dict t)).
+Proof. exact write_read_thresholds. Qed.
+Print Assumptions C07_write_read_thresholds_partial.
+
+(* watchdog: every value of each configuration parameter (others at a base value), on a BMC whose watchdog is unused *)
+Theorem C07_write_read_watchdog_partial : forall s w, List.In w wd_cases ->
+  get s (K_WD, 0, 0) = [0; 0; 0; 0; 0; 0] -> get s (K_WDRUN, 0, 0) = [0] ->
+  exists r1 r2,
+    call "set_watchdog_timer" [("config", wd_config w)] s = (r1, wd_state w s) /\ same r1 (Ok PNone) /\
+    call "get_watchdog_timer" [] (wd_state w s) = (r2, wd_state w s) /\ same r2 (Ok (wd_result w)).
+Proof. exact write_read_watchdog. Qed.
+Print Assumptions C07_write_read_watchdog_partial.
+
+(* the reference BMC's watchdog transition itself, for EVERY configuration and every unused state *)
+Theorem C07_bmc_watchdog : forall w, w_use w < 8 -> w_pre w < 8 -> w_act w < 8 -> w_flags w < 256 -> wd_bmc_ok w.
+Proof. exact wd_bmc_one. Qed.
+Print Assumptions C07_bmc_watchdog.
+
+Theorem C07_write_read_user_name_partial : forall s uid nm, List.In uid uids -> List.In nm names ->
+  let s1 := put s (K_UNAME, uid, 0) (pad16 nm) in
+  exists r1 r2,
+    call "set_username" [arg "userid" uid; ("username", PStr nm)] s = (r1, s1) /\ same r1 (Ok PNone) /\
+    call "get_username" [arg "userid" uid] s1 = (r2, s1) /\ same r2 (Ok (PBytes (pad16 nm))).
+Proof. exact write_read_username. Qed.
+Print Assumptions C07_write_read_user_name_partial.
+
+(* non-vacuity: the domains are inhabited and a concrete history runs *)
+Example C07_somewhere :
+  vlan_dom 394 1 /\ List.In ("remote cd", 8) boot_devices /\
+  fst (call "get_vlan_id" [arg "channel" 1]
+         (snd (call "set_vlan_id" [arg "vlan" 394; arg "channel" 1] []))) = Ok (PInt 394).
+Proof. split; [left; split; [reflexivity | cbn; auto] | split; [cbn; auto 12 | vm_compute; reflexivity]]. Qed.
